@@ -35,7 +35,7 @@ TRUSTED = [
 ]
 
 RANK = {"allow": 0, "ask": 1, "deny": 2}
-NWORK = 6
+NWORK = 10
 
 
 def _norm_log(case, log):
